@@ -83,4 +83,76 @@ theorem dotToUnderscore_kebab (a : List Char) (ka : kebab a) : dotToUnderscore (
     simp [this]
   · simp [Function.comp, hdash]
 
+/-! ### version mangling -/
+
+def foldRepl (rs : List (List Char × List Char)) (s : List Char) : List Char :=
+  rs.foldl (fun s r => applyRepl r s) s
+
+theorem applyRepl_append (r : List Char × List Char) (a b : List Char) :
+    applyRepl r (a ++ b) = applyRepl r a ++ applyRepl r b := by simp [applyRepl]
+
+theorem foldRepl_append : ∀ (rs : List (List Char × List Char)) (a b : List Char),
+    foldRepl rs (a ++ b) = foldRepl rs a ++ foldRepl rs b
+  | [], _, _ => rfl
+  | r :: rs, a, b => by
+      simp only [foldRepl, List.foldl_cons, applyRepl_append]
+      exact foldRepl_append rs _ _
+
+/-- the chain acts character by character -/
+theorem foldRepl_flatMap (rs : List (List Char × List Char)) : ∀ s : List Char,
+    foldRepl rs s = s.flatMap (fun c => foldRepl rs [c])
+  | [] => by
+      induction rs with
+      | nil => rfl
+      | cons r rs ih => simpa [foldRepl, applyRepl] using ih
+  | c :: cs => by
+      have := foldRepl_append rs [c] cs
+      simp only [List.singleton_append] at this
+      rw [this, foldRepl_flatMap rs cs]
+      simp
+
+/-- every semver character is mapped to C identifier characters by the extracted chain -/
+theorem version_chars_all :
+    semverChars.all (fun c => (foldRepl versionReplacements [c]).all cIdentChar) = true := by
+  decide +kernel
+
+theorem mangleVersion_ident (v : List Char) (hv : ∀ c ∈ v, c ∈ semverChars) :
+    ∀ d ∈ mangleVersion v, cIdentChar d = true := by
+  intro d hd
+  have : mangleVersion v = foldRepl versionReplacements v := rfl
+  rw [this, foldRepl_flatMap] at hd
+  obtain ⟨c, hc, hdc⟩ := List.mem_flatMap.mp hd
+  have h1 := List.all_eq_true.mp version_chars_all c (hv c hc)
+  exact List.all_eq_true.mp h1 d hdc
+
+theorem lod_cIdentChar {c : Char} (h : lod c = true) : cIdentChar c = true := by
+  simp only [lod, Bool.or_eq_true] at h
+  rcases h with h | h <;> simp [cIdentChar, h]
+
+theorem sepU_cIdentChar (c : Char) (h : isAlnum c = true → lod c = true) : cIdentChar (sepU c) = true := by
+  unfold sepU
+  split
+  · rename_i ha; exact lod_cIdentChar (h ha)
+  · decide
+
+/-- a simple (lower-case kebab) name snake-cases to identifier characters -/
+theorem snake_simple_ident : ∀ (s : List Char) (b : Bool), simpleTail b s = true → ∀ d ∈ s.map sepU, cIdentChar d = true
+  | [], _, _ => by simp
+  | c :: cs, b, h => by
+      intro d hd
+      simp only [simpleTail] at h
+      simp only [List.map_cons, List.mem_cons] at hd
+      by_cases ha : isAlnum c = true
+      · simp only [ha, if_true, Bool.and_eq_true] at h
+        rcases hd with rfl | hd
+        · exact sepU_cIdentChar c (fun _ => h.1)
+        · exact snake_simple_ident cs false h.2 d hd
+      · simp only [ha, Bool.false_eq_true, if_false, Bool.and_eq_true] at h
+        rcases hd with rfl | hd
+        · exact sepU_cIdentChar c (fun h' => absurd h' ha)
+        · exact snake_simple_ident cs true h.2 d hd
+
+theorem snake_ident (s : List Char) (h : simpleTail true s = true) : ∀ d ∈ snake s, cIdentChar d = true := by
+  rw [snake_simple s h]; exact snake_simple_ident s true h
+
 end Witverif.Text.CIdent
